@@ -16,7 +16,7 @@ use vh::conv::*;
 struct Quiet;
 impl EventListener for Quiet {}
 
-fn build(dir: &PathBuf, src: &str, extra: &J, verbose: bool) -> Result<Blueprint, String> {
+fn build(dir: &PathBuf, src: &str, extra: &J, verbose: bool, tracing: &J) -> Result<Blueprint, String> {
     let _ = std::fs::remove_dir_all(dir);
     std::fs::create_dir_all(dir.join("validators")).map_err(|e| e.to_string())?;
     std::fs::write(
@@ -37,7 +37,13 @@ fn build(dir: &PathBuf, src: &str, extra: &J, verbose: bool) -> Result<Blueprint
     let mut project = Project::new(dir.clone(), Quiet).map_err(|e| format!("project: {e:?}"))?;
     let path = dir.join("plutus.json");
     project
-        .build(false, Tracing::All(if verbose { TraceLevel::Verbose } else { TraceLevel::Silent }), path.clone(), BlueprintExport::OnlyBinaryInterface, None)
+        .build(
+            false,
+            if tracing.is_array() { vh::aikenrun::tracing_from(tracing)? } else { Tracing::All(if verbose { TraceLevel::Verbose } else { TraceLevel::Silent }) },
+            path.clone(),
+            BlueprintExport::OnlyBinaryInterface,
+            None,
+        )
         .map_err(|es| format!("build: {}", es.iter().map(|e| format!("{e:?}")).collect::<Vec<_>>().join(" | ").chars().take(1500).collect::<String>()))?;
     Project::<Quiet>::blueprint(&path).map_err(|e| format!("load: {e:?}"))
 }
@@ -156,7 +162,8 @@ fn run_case(case: &J) -> J {
         let t = text.to_string();
         guarded(move || serde_json::from_str::<Blueprint>(&t).map_err(|e| format!("load: {e}")))
     } else {
-        guarded(move || build(&d2, &src, &extra, verbose))
+        let tracing = case["tracing"].clone();
+        guarded(move || build(&d2, &src, &extra, verbose, &tracing))
     };
     let bp = match built {
         Err(p) => return json!({"id": id, "build": {"panic": p}}),
@@ -174,6 +181,24 @@ fn run_case(case: &J) -> J {
     let mut ops_out = vec![];
     for op in case["ops"].as_array().cloned().unwrap_or_default() {
         match op["op"].as_str().unwrap_or("") {
+            "eval" => {
+                // run one handler's published code on script contexts: {"op":"eval","title":"v.w.mint","ctxs":[data..]}
+                let title = op["title"].as_str().unwrap_or("");
+                let code = bp.validators.iter().find(|v| v.title == title).map(|v| serde_json::to_value(v).unwrap_or(J::Null)["compiledCode"].as_str().unwrap_or("").to_string());
+                let mut res = vec![];
+                match code {
+                    None => res.push(json!({"o": "no such validator"})),
+                    Some(code) => {
+                        for c in op["ctxs"].as_array().cloned().unwrap_or_default() {
+                            match data_from_json(&c) {
+                                Ok(d) => res.push(eval_hex(&code, &[d])),
+                                Err(e) => return json!({"id": id, "harness_error": e}),
+                            }
+                        }
+                    }
+                }
+                ops_out.push(json!({"op": "eval", "title": title, "results": res}));
+            }
             "validate" => {
                 let vi = op["validator"].as_u64().unwrap_or(0) as usize;
                 let pi = op["param"].as_u64().unwrap_or(0) as usize;
